@@ -1,13 +1,14 @@
 (* C31 obligation (guarded fragment): soundness of the SeriesVisitor model.  DenF fuel e y says
    that the formal power series y is a Taylor series of the expression e built from numbers, x,
-   Add / Mul dictionaries, integer powers >= 2, reciprocals of series with non-zero constant
+   Add / Mul dictionaries, integer powers >= 2, roots e^(1/d) (exact rational root of the constant
+   term), reciprocals of series with non-zero constant
    term, exp, and sin cos tan atan sinh cosh tanh atanh asin asinh lambertw of arguments without
    constant term, log of arguments with constant term 1 (each function given by its defining
    initial value problem, VisitorProofs.v: fspec).  Whenever the visitor returns Ok r, the
    coefficients of r below x^prec are those of y.
-   Outside the fragment (rational powers, general powers, quotients by series without constant
-   term -- where the library loses precision, see P_refuted.v --, symbolic constants) nothing is
-   claimed here; nthroot has its own theorem. *)
+   Outside the fragment (other rational powers, general powers a^b, quotients by series without
+   constant term -- where the library loses precision, see P_refuted.v --, symbolic constants)
+   nothing is claimed here. *)
 From Coq Require Import QArith List ZArith NArith.
 From SE Require Import C31.VisitorModel.
 From SE Require Import C31.SeriesSpec C31.Invert C31.SeriesProofs C31.Compose C31.VisitorProofs.
